@@ -309,7 +309,7 @@ def tla_module(dw, opt, names, module="ScopeData"):
         vs.append(f'[name |-> {tla_str(v["name"])}, block |-> {v["block"]}, decl |-> {v["decl"]}, kind |-> {tla_str(v["kind"])}, '
                   f'scalar |-> {"TRUE" if v["size"] else "FALSE"}, locs |-> <<{ls}>>]')
     gl = ", ".join(tla_str(n) for n in sorted(set(names) & dw["globals"]))
-    return (f"---- MODULE {module} ----\n"
+    return (f"---- MODULE {module} ----\nEXTENDS Integers\n"
             f"Blocks == <<\n  " + ",\n  ".join(bl) + "\n>>\n"
             f"Vars == <<\n  " + ",\n  ".join(vs) + "\n>>\n"
             f"GlobalNames == {{ {gl} }}\n"
